@@ -154,7 +154,7 @@ def run_cseg(R, quick):
     import numpy as np
     rng = R.rng
     items = []      # (kind, buf, C, shape, blk, dt, src_values or None)
-    nvalid = 36 if quick else 900
+    nvalid = 36 if quick else 150
     for i in range(nvalid):
         cs = c02.gen_case(rng, True)
         if i % 3 == 0:   # keep most sources small so that targeted edits dominate
@@ -170,7 +170,7 @@ def run_cseg(R, quick):
         for kind, b, C, shape, blk, dt in cseg_mutants(rng, cs, buf, quick):
             items.append((kind, b, C, list(shape), list(blk), dt, a if kind == "valid" else None,
                           len(cs["values"]) > 1))
-    for _ in range(400 if quick else 20000):
+    for _ in range(400 if quick else 10000):
         n = rng.choice([0, 1, 3, 4, 7, 8, 11, 12, 16, 20, 24, rng.randrange(301)])
         style = rng.random()
         if style < 0.4:
@@ -186,6 +186,21 @@ def run_cseg(R, quick):
         blk = [rng.choice([1, 2, 3, 8]) for _ in range(3)]
         items.append(("random", b, C, shape, blk, rng.choice(["uint32", "uint64"]), None, False))
 
+    if not quick:
+        # exhaustive sweep: every single-byte substitution on three small valid files
+        small = [("uint32", 2, [2, 1, 1], [1, 1, 1], [5, 6, 5, 7]),
+                 ("uint64", 1, [2, 2, 1], [2, 1, 1], [2 ** 40, 1, 1, 2 ** 40]),
+                 ("uint32", 2, [1, 1, 1], [2, 2, 2], [9, 9])]
+        for dt, C, shape, blk, vals in small:
+            a = c02.arr_of(dt, C, shape, vals)
+            buf = bytes(c02.make_encoder(dt, C, blk).encode(a))
+            for pos in range(len(buf)):
+                for v in range(256):
+                    if v != buf[pos]:
+                        m = bytearray(buf)
+                        m[pos] = v
+                        items.append(("sweep", bytes(m), C, shape, blk, dt, None, True))
+        R.extra["exhaustive_single_byte_sweep_files"] = len(small)
     replies = R.model.batch([c02.dec_request(dt, C, blk, shape, b) for (_k, b, C, shape, blk, dt, _a, _n) in items])
     encoders = {}
     for (kind, b, C, shape, blk, dt, src, nontriv), rep in zip(items, replies):
@@ -242,7 +257,7 @@ def run_raw(R, quick):
     import numpy as np
     rng = R.rng
     items = []
-    for _ in range(500 if quick else 20000):
+    for _ in range(500 if quick else 10000):
         dt = rng.choice(list(RAW_TYPES))
         isz = RAW_TYPES[dt]
         C = rng.choice([1, 1, 2, 3])
@@ -355,7 +370,7 @@ def run_jpeg(R, quick):
     import PIL.Image
     rng = R.rng
     items = []
-    for _ in range(60 if quick else 1500):
+    for _ in range(60 if quick else 70):
         C = rng.choice([1, 3])
         shape = [rng.choice([1, 2, 3, 8, 9, rng.randint(1, 12)]) for _ in range(3)]
         X, Y, Z = shape
@@ -393,7 +408,7 @@ def run_jpeg(R, quick):
             bio = io.BytesIO()
             cm.save(bio, format="jpeg")
             items.append(("cmyk", C, shape, bio.getvalue(), None))
-    for _ in range(100 if quick else 3000):
+    for _ in range(100 if quick else 2000):
         n = rng.randrange(0, 300)
         items.append(("random", rng.choice([1, 3]), [rng.randint(1, 4) for _ in range(3)],
                       rng.choice([b"", b"\xff\xd8\xff\xe0", b"\xff\xd8"]) + bytes(rng.randrange(256) for _ in range(n)),
